@@ -201,11 +201,8 @@ func LoadEngine(keys []string) (*Engine, error) {
 	}
 	prog, _ := ssautil.AllPackages(pkgs, ssa.InstantiateGenerics)
 	e.prog = prog
-	for _, p := range prog.AllPackages() {
-		if strings.HasPrefix(p.Pkg.Path(), modulePath) {
-			p.Build()
-		}
-	}
+	// build every package up front: lazy building from several workers races on fn.Blocks
+	prog.Build()
 	for _, k := range keys {
 		ip := pkgTable[k].importPath()
 		for _, p := range prog.AllPackages() {
